@@ -460,6 +460,19 @@ var propC07 = &Prop[ShapeCase]{
 					yield(mkShape(mode, mn, []string{k}, vi))
 				}
 				if in(c07Implemented, mn) {
+					// every register of every class as the only operand, and the three-operand shapes
+					for _, rk := range []string{"r8", "r16", "r32", "sreg", "creg"} {
+						for vv := 0; vv < 8; vv++ {
+							yield(mkShape(mode, mn, []string{rk}, vv))
+						}
+					}
+					for vv := 0; vv < 8; vv++ {
+						for _, ks := range [][]string{{"r16", "r16", "imm"}, {"r32", "r32", "imm"}, {"r16", "m16", "imm"}, {"r16", "imm", "imm"}, {"r16", "r16", "r16"}, {"r32", "r32", "immbig"}} {
+							c3 := mkShape(mode, mn, ks, vv)
+							c3.Ops[1].Op = shapeOperand(ks[1], vv+3) // not the same register twice
+							yield(c3)
+						}
+					}
 					// memory operands of every questionable kind, in every variant, in the usual operand shapes
 					for _, mk := range []string{"badmem", "mundef", "mlabel", "mem"} {
 						nv := map[string]int{"badmem": 16, "mundef": 8, "mlabel": 4, "mem": 4}[mk]
